@@ -9,7 +9,7 @@ exactly what was installed."""
 import os, random, shutil, stat, subprocess, sys, tempfile
 from bounded.util import chunked, pmap
 
-FNAMES = ['a.txt', 'b c.txt', 'ü.dat', 'd.h', 'e.1']
+FNAMES = ['a.txt', 'b c.txt', 'ü.dat', 'd.h', 'e.1', ' lead.txt', 'tab\tname']          # (a leading blank, a tab: the log must name them exactly; a SOURCE name ending in a blank is refused by meson)
 
 
 def stub_ninja(d):
@@ -46,6 +46,11 @@ def gen(rnd):
         dest = (idir.lstrip('/') if absdir else P + '/' + idir) + '/' + os.path.basename(fn)
         m = {'rwxr-x---': 0o750, 'rw-r--r--': 0o644}.get(mode) if mode in ('rwxr-x---', 'rw-r--r--') else ((0o755 if srcmode & 0o111 else 0o644))
         exp.append((dest, 'file', m, tag, ''))
+    # an installed name that ends in a blank (only `rename:` can make one): the log line must still name exactly that file
+    if rnd.random() < 0.4:
+        add_file('ren/plain.txt')
+        lines.append("install_data('ren/plain.txt', install_dir: 'share/ren', rename: 'note ')")
+        exp.append((P + '/share/ren/note ', 'file', 0o644, None, ''))
     # headers
     if rnd.random() < 0.7:
         add_file('inc/h1.h')
